@@ -1,6 +1,6 @@
-from . import evaluate, numeric, structure
+from . import evaluate, numeric, structure, reduce
 
-MODULES = [evaluate, numeric, structure]
+MODULES = [evaluate, numeric, structure, reduce]
 
 
 def all_specs(prog, tier):
